@@ -27,7 +27,7 @@ fn scenario(ctx: &Ctx, i: u64) -> (Logical, bool) {
 }
 
 pub fn run(ctx: &mut Ctx) {
-    let n = ctx.n(192, 3000);
+    let n = ctx.n(192, 40_000);
     for i in 0..n {
         if !ctx.mine(i) {
             continue;
